@@ -1,6 +1,6 @@
 (* C12 - incremental output equals a clean build; unchanged files are untouched.  Theorems only. *)
 From Coq Require Import Lia.
-From Ructe Require Import Nom Utf8 Emit Compile Md5 Static Tables Build MapProofs BuildProofs PlanPaths.
+From Ructe Require Import Nom Utf8 Emit Compile Md5 Static Tables Build MapProofs BuildProofs PlanPaths TreeMirror.
 Local Open Scope list_scope.
 
 (* write_if_changed: afterwards the path holds the content and no other path changed; a physical
@@ -99,6 +99,20 @@ Section C12.
   Qed.
 End C12.
 
+(* reachable = planned: the module text a directory contributes (templates.rs for the root, its
+   mod.rs below) consists of declarations each of which refers to a file planned in this very run --
+   template_<name>.rs for a template declaration, <dir>/mod.rs for a `pub mod` -- and of nothing else.
+   By generated_files_equal_clean_build those files end up equal to the clean build's; whatever
+   else an earlier build left in OUT_DIR (a deleted template's code, a broken template's last good
+   version) is referred to by no declaration *)
+Theorem declared_files_are_planned : forall (uni_esc : N -> bool) (compile : bytes -> bytes -> coutcome) fuel es w f indir outdir w' f',
+  handle_entries uni_esc compile (S fuel) w f indir outdir es = BOk _ (w', f') ->
+  exists items, f' = f ++ flat_map render_item items /\ Forall (item_planned outdir w') items.
+Proof.
+  intros uni_esc compile fuel es w f indir outdir w' f' H. cbn [handle_entries] in H.
+  exact (declared_files_planned_lemma uni_esc compile _ (handle_entries_frame uni_esc compile fuel) es w f indir outdir w' f' H).
+Qed.
+
 (* the shape condition is needed: two compile_templates calls on directories that share a
    sub-directory name plan templates/sub/mod.rs twice with different contents, so every run rewrites it *)
 Example two_walks_sharing_a_directory_name_collide :
@@ -137,6 +151,7 @@ Redirect "assumptions/C12.write_if_changed_spec" Print Assumptions write_if_chan
 Redirect "assumptions/C12.write_plan_independent_of_outdir" Print Assumptions write_plan_independent_of_outdir.
 Redirect "assumptions/C12.generated_files_equal_clean_build" Print Assumptions generated_files_equal_clean_build.
 Redirect "assumptions/C12.second_run_writes_nothing" Print Assumptions second_run_writes_nothing.
+Redirect "assumptions/C12.declared_files_are_planned" Print Assumptions declared_files_are_planned.
 Redirect "assumptions/C12.planned_paths_distinct" Print Assumptions planned_paths_distinct.
 Redirect "assumptions/C12.second_run_writes_nothing_documented_shape" Print Assumptions second_run_writes_nothing_documented_shape.
 Redirect "assumptions/C12.two_walks_sharing_a_directory_name_collide" Print Assumptions two_walks_sharing_a_directory_name_collide.
